@@ -49,6 +49,16 @@ pub fn fnv(data: &str) -> u64 {
     h
 }
 
+/// progress files: every case is appended to <dir>/cases.part and <dir>/impl.part as it is produced, so that a run that
+/// never finishes (the operation under test hangs) still leaves what it had established
+static PART: std::sync::Mutex<Option<(std::io::BufWriter<std::fs::File>, std::io::BufWriter<std::fs::File>)>> = std::sync::Mutex::new(None);
+pub fn set_part_dir(dir: &str) {
+    let _ = std::fs::create_dir_all(dir);
+    if let (Ok(a), Ok(b)) = (std::fs::File::create(format!("{dir}/cases.part")), std::fs::File::create(format!("{dir}/impl.part"))) {
+        *PART.lock().unwrap() = Some((std::io::BufWriter::new(a), std::io::BufWriter::new(b)));
+    }
+}
+
 impl Out {
     pub fn new() -> Self { Default::default() }
     /// one case: the line fed to the model driver and the implementation's result line
@@ -56,6 +66,11 @@ impl Out {
         self.cases.push_str(case_line); self.cases.push('\n');
         self.imp.push_str(impl_line); self.imp.push('\n');
         self.evaluations += 1;
+        if let Ok(mut g) = PART.lock() { if let Some((a, b)) = g.as_mut() {
+            use std::io::Write as _;
+            let _ = a.write_all(case_line.as_bytes()); let _ = a.write_all(b"\n"); let _ = b.write_all(impl_line.as_bytes()); let _ = b.write_all(b"\n");
+            if self.evaluations < 5000 || self.evaluations % 512 == 0 { let _ = a.flush(); let _ = b.flush(); }
+        } }
         if nontrivial { self.nontrivial.insert(fnv(case_line)); }
         if self.samples.len() < 3 && case_line.len() < 600 { self.samples.push(case_line.to_string()); }
     }
@@ -63,6 +78,8 @@ impl Out {
     pub fn count_n(&mut self, key: &str, n: u64) { *self.dist.entry(key.to_string()).or_insert(0) += n; }
     pub fn finish(&self, dir: &str, rule: &str) {
         std::fs::create_dir_all(dir).unwrap();
+        if let Ok(mut g) = PART.lock() { *g = None; }
+        let _ = std::fs::remove_file(format!("{dir}/cases.part")); let _ = std::fs::remove_file(format!("{dir}/impl.part"));
         std::fs::write(format!("{dir}/cases.txt"), &self.cases).unwrap();
         std::fs::write(format!("{dir}/impl.txt"), &self.imp).unwrap();
         let mut m = String::new();
